@@ -336,6 +336,10 @@ func init() {
 				{Name: "get-vs-close", Cfg: "flushy/bytewise", Pre: []string{"put:a", "q"}, Clients: [][]string{{"get:a"}, {"close"}}, QB: 2, TB: 3},
 				{Name: "snapshot-vs-close", Cfg: "default/bytewise", Pre: []string{"put:a"}, Clients: [][]string{{"snapget:a"}, {"close"}}, QB: 3, TB: 4},
 				{Name: "transaction-vs-close", Cfg: "bigbatch/bytewise", Clients: [][]string{{"tr:+a,+b"}, {"close"}}, QB: 2, TB: 3},
+				// Close with an open transaction while a recycled write buffer sits in the buffer pool
+				// (a transaction iterator released after the transaction flushed internally)
+				{Name: "close-with-open-transaction-and-pooled-buffer", Cfg: "wide/bytewise", Pre: []string{"otr", "tput:a", "tput:b", "titer", "tput:a", "reliter"}, Clients: [][]string{{"close"}, {"get:a"}}, QB: 2, TB: 3},
+				{Name: "close-after-flush-with-pooled-buffer", Cfg: "wide/bytewise", Pre: []string{"putM:a", "putM:b", "putM:c", "q", "otr", "tput:a"}, Clients: [][]string{{"close"}, {"get:a"}}, QB: 2, TB: 3},
 				{Name: "compact-vs-close", Cfg: "flushy/bytewise", Pre: []string{"put:a", "put:b"}, Clients: [][]string{{"cr"}, {"close"}}, QB: 2, TB: 2},
 			}
 			runConcChecks(c, "C18", drivers, 2, 0)
